@@ -137,7 +137,8 @@ LineSeq(n) ==
             <<W(w), Raw("a*b*c", "a<em>b</em>c"), Raw("snake_case_word", "snake_case_word")>>,
             <<Full("foo", "nope"), W(w)>>, <<W(w), Full("FOO", "nope")>>, <<Raw("![foo][nope]", "![foo][nope]"), W(w)>>,
             <<W(w), Raw("[a](<> \"t\")", "<a href=\"\" title=\"t\">a</a>")>>, <<Raw("[a](<>)", "<a href=\"\">a</a>"), W(w)>>,
-            <<W(w), Raw("![i](<> 't')", "<img src=\"\" alt=\"i\" title=\"t\" />")>> >>)
+            <<W(w), Raw("![i](<> 't')", "<img src=\"\" alt=\"i\" title=\"t\" />")>>,
+            <<W(w), Raw("<b>{TAB}raw</b>", "<b>{TAB}raw</b>"), W("x>{TAB}y")>> >>)          \* a tab directly behind ">" inside the text
 
 (* spelling variants: every action draws one index v and derives its free spelling choices from it, so that in
    simulation mode every kind of block is typed about equally often; over many documents all combinations occur *)
@@ -426,13 +427,13 @@ TypeDef ==
        /\ Budget
        /\ FirstKindOk("def")
        /\ SepOk(sep, "def")
-       /\ src' = src \o SepLines(sep) \o <<LineNow("[" \o l \o "]: " \o d \o t)>>
+       /\ src' = src \o SepLines(sep) \o <<LineNow("[" \o l \o "]: " \o d \o (IF t # "" /\ Level = 2 /\ v % 3 = 2 THEN "{TAB}" \o SubSeq(t, 2, Len(t)) ELSE t))>>     \* (a tab may separate destination and title)
        /\ defs' = Append(defs, [label |-> l, href |-> Href(d), title |-> TitleOf(t), line |-> Len(src) + Len(SepLines(sep)) + 1])
        /\ loose' = LooseAfter(sep)
        /\ open' = Started(open)
        /\ last' = [kind |-> "def", mtype |-> "", inner |-> "def"]
        /\ nblocks' = nblocks + 1
-       /\ tags' = tags \cup LazyTag(sep) \cup NcSep(sep)
+       /\ tags' = tags \cup LazyTag(sep) \cup NcSep(sep) \cup NcIf(t # "" /\ Level = 2 /\ v % 3 = 2)       \* (the renderer separates the title by a space)
        /\ UNCHANGED <<nodes, phase, target>>
 
 ---------------------------------------------------------------------------
